@@ -385,6 +385,12 @@ class ExprGen:
                     sep = ""
                 else:
                     sep = self.r.choice([" ", " ", " ", "  ", "\n", "\t", " \n  "])
+                eol = getattr(self, "eol", None)
+                if eol and "\n" in sep:
+                    # line-end style of the whole source: CRLF, CR LF mixed with LF, CR before white space
+                    sep = sep.replace("\n", eol if eol != "mixed" else self.r.choice(["\r\n", "\n", "\r \n", "\r\r\n"]))
+                elif eol == "\r" and sep:
+                    sep = self.r.choice([sep, "\r", " \r", "\r\t"])     # a lone CR is white space for the lexer
                 out.append(sep)
             out.append(t)
         return "".join(out)
@@ -545,6 +551,101 @@ def long_string_cases(rng):
     # NUL truncation far into a long literal
     raw = "a" * 5000 + "%00" + "b" * 5000
     out.append(("dq nul 10003", '"' + raw + '"', "(str %s 0 %s %s 2)" % (hx("a" * 5000), hx(""), hx(raw))))
+    return out
+
+
+# ---------------------------------------------------------------- literal content x line-end style
+LINE_END_SPECIALS = ["\r\n", "\r", "\n", "\t", "\n\r", "\r\r\n", "\r\n\r\n", "\x01", "\x07", "\x08", "\x0b", "\x0c", "\x1b", "\x1f", "\x7f",
+                     "\u00e9", "\u65e5\u672c", "\U0001F600", "\u0085", "\u2028", "\ufeff"]
+
+
+def line_end_contents(rng, n_random):
+    """literal contents: every special (CR, LF, CRLF, lone CR, tab, C0 controls, multi-byte runes) alone, at the start,
+    in the middle, at the end, doubled, and random mixtures"""
+    out = []
+    for sp in LINE_END_SPECIALS:
+        out += [sp, sp + "ab", "a" + sp + "b", "ab" + sp, sp + sp, "a" + sp + "b" + sp, sp + "a" + sp]
+    pieces = LINE_END_SPECIALS + ["a", "b c", "xyz", " ", "0", "/", "{", "}", "'"]
+    for _ in range(n_random):
+        out.append("".join(rng.choice(pieces) for _ in range(rng.randint(1, 8))))
+    return out
+
+
+def string_literal(rng, content, form=None, allow_escape=False):
+    """(source text, intended sexp) of one string literal holding `content` byte for byte.
+    form: dq | long | delim.  With allow_escape a dq literal may spell CR / LF / TAB as %0D / %0A / %09."""
+    form = form or rng.choice(["dq", "long", "delim"])
+    if form == "dq":
+        raw = content
+        if allow_escape and rng.random() < 0.3:
+            raw = "".join({"\r": "%0D", "\n": "%0a", "\t": "%09"}.get(ch, ch) if rng.random() < 0.5 else ch for ch in content)
+        val = ref_decode_escapes(raw.encode())
+        assert val == content.encode(), (raw, val)
+        return '"' + raw + '"', "(str %s 0 %s %s 2)" % (hx(content), hx(""), hx(raw))
+    if form == "long":
+        if '"}' in content:
+            content = content.replace('"}', "'}")
+        return '{"' + content + '"}', "(str %s 1 %s %s 4)" % (hx(content), hx(""), hx(content))
+    d = rng.choice(["x", "EOS", "a1", "_"])
+    return '{%s"%s"%s}' % (d, content, d), "(str %s 1 %s %s %d)" % (hx(content), hx(d), hx(content), 4 + 2 * len(d))
+
+
+def line_end_expr_cases(rng, n_random):
+    """every content in every literal form, as an expression; white space around it in every line-end style"""
+    out = []
+    for c in line_end_contents(rng, n_random):
+        for form in ("dq", "long", "delim"):
+            text, sexp = string_literal(rng, c, form, allow_escape=True)
+            pre = rng.choice(["", "\r\n", "\r", "\n", " \r\n\t", "\r\r\n"])
+            post = rng.choice(["", "\r\n", "\r", "\n", " \r\n"])
+            out.append(("line-end %s %r" % (form, c[:12]), pre + text + post, sexp))
+    return out
+
+
+# a program with a string literal in every position of the grammar that takes one; @n@ = literal n.
+# The intended tree is this hand copy of the projection with the literals' intended nodes filled in.
+LINE_END_TEMPLATE = (
+    'acl a {¶ @0@;¶ !@1@/8;¶}¶'
+    'table t STRING {¶ @2@: @3@,¶ @4@: @5@,¶}¶'
+    'backend b {¶ .host = @6@;¶ .probe = {¶ .request = @7@ @8@;¶ }¶}¶'
+    '# note\n'
+    'sub vcl_recv {¶ set req.http.A = @9@ @10@;¶ error 600 @11@;¶ synthetic @12@;¶ log @13@;¶ include @14@;¶'
+    ' if (req.http.B ~ @15@) {¶ }¶ switch (req.http.C) {¶ case @16@:¶ break;¶ case ~ @17@:¶ break;¶ }¶}¶'
+    'include @18@;¶')
+LINE_END_INTENT = (
+    '0 ((acl "61" (cidr 0 #0# _) (cidr 1 #1# 8)) '
+    '(table "74" "535452494e47" (tprop @2@ @3@ 1) (tprop @4@ @5@ 1)) '
+    '(backend "62" (prop "686f7374" @6@) (probe "70726f6265" (prop "72657175657374" (infix @7@ "2b" 0 @8@)))) '
+    '(sub "76636c5f72656376" () _ ((set "7265712e687474702e41" "3d" (infix @9@ "2b" 0 @10@)) (error (int 600 "363030") @11@) '
+    '(synthetic @12@) (log @13@) (include @14@) (if "6966" (infix (ident "7265712e687474702e42") "7e" 0 @15@) () () _) '
+    '(switch (ident "7265712e687474702e43") ((case (test "3d3d" @16@) ((break)) 0) (case (test "7e" @17@) ((break)) 0)) -1))) '
+    '(include @18@))')
+
+
+def line_end_program_cases(rng, n):
+    """the template with random contents / literal forms in every slot and one line-end style for the whole source"""
+    out = []
+    contents = line_end_contents(rng, 40)
+    for i in range(n):
+        style = rng.choice(["\n", "\r\n", "\r", "mixed", "mixed"])
+        src, intent = LINE_END_TEMPLATE, LINE_END_INTENT
+        for k in range(18, -1, -1):
+            c = rng.choice(contents) if rng.random() < 0.8 else "plain%d" % k
+            if k in (0, 1):
+                text, sexp = string_literal(rng, c, "dq")          # acl entries: quoted strings, the node keeps the value
+                intent = intent.replace("#%d#" % k, hx(c))
+            else:
+                # include paths and the test of a plain `case` are quoted strings (ParseCaseStatement takes STRING only)
+                text, sexp = string_literal(rng, c, None if k not in (14, 16, 18) else "dq", allow_escape=k not in (14, 18))
+                intent = intent.replace("@%d@" % k, sexp)
+            src = src.replace("@%d@" % k, text)
+        parts = src.split("\u00b6")
+        res = []
+        for j, part in enumerate(parts[:-1]):
+            res.append(part)
+            res.append({"\n": "\n", "\r\n": "\r\n", "\r": "\r"}.get(style) or rng.choice(["\n", "\r\n", "\r", "\r\r\n", "\n\r"]))
+        res.append(parts[-1])
+        out.append(("line-end-program %d %r" % (i, style), "".join(res), intent))
     return out
 
 
